@@ -211,7 +211,13 @@ func Boundary(r *rand.Rand) []byte {
 		}
 	}
 	target := 247 + r.IntN(13) // 247..259
-	end := r.IntN(3)           // 0 root, 1 end of buffer, 2 pointer
+	switch r.IntN(6) {         // the limit itself and its neighbour more often than the rest
+	case 0, 1:
+		target = 253
+	case 2:
+		target = 254
+	}
+	end := r.IntN(3) // 0 root, 1 end of buffer, 2 pointer
 	remain := target
 	var t tgt
 	if end == 2 {
